@@ -148,20 +148,25 @@ func resubscribe(b broker, workers int) {
 		os.Exit(2)
 	}
 	err2 := tr.Subscribe(topicB, read(&atB))
-	if b.name() == "stomp" {
-		time.Sleep(3 * time.Millisecond)
-	}
-	for i := 0; i < 3; i++ {
-		b.raw(topicB, wire.Frame([]byte(fmt.Sprintf("for-B-%d", i))))
-	}
-	b.raw(topicA, wire.Frame([]byte("for-A")))
-	b.flush()
-	for dl := time.Now().Add(2 * time.Second); time.Now().Before(dl); time.Sleep(200 * time.Microsecond) {
+	// (STOMP subscriptions become live asynchronously: the round is repeated until topic A's message arrives)
+	sawForA := func() bool {
 		mu.Lock()
-		n := len(atA)
-		mu.Unlock()
-		if n > 0 && (len(atA) > 1 || atA[0] == "for-A") {
-			break
+		defer mu.Unlock()
+		for _, m := range atA {
+			if m == "for-A" {
+				return true
+			}
+		}
+		return false
+	}
+	for round, dl := 0, time.Now().Add(10*time.Second); !sawForA() && time.Now().Before(dl) && (round == 0 || b.name() == "stomp"); round++ {
+		for i := 0; i < 3; i++ {
+			b.raw(topicB, wire.Frame([]byte(fmt.Sprintf("for-B-%d", i))))
+		}
+		b.raw(topicA, wire.Frame([]byte("for-A")))
+		b.flush()
+		for w := time.Now().Add(map[bool]time.Duration{true: 50 * time.Millisecond, false: 3 * time.Second}[b.name() == "stomp"]); !sawForA() && time.Now().Before(w); {
+			time.Sleep(200 * time.Microsecond)
 		}
 	}
 	time.Sleep(2 * time.Millisecond)
@@ -213,7 +218,15 @@ func runCase(b broker, workers int, c Case) {
 	ev := func(s string) { events = append(events, s) }
 	sub := verifrpc.NewEventsSubscriber(prov)
 	stallCh := make(chan struct{})
+	probe1, probe2 := make(chan struct{}, 1), make(chan struct{}, 1)
 	s, err := sub.SubscribeItemAdded(user, func(ctx frugal.FContext, it *verifbase.Item) {
+		if it.ID < 0 {
+			select { // a probe of the driver: the subscription is live
+			case probe1 <- struct{}{}:
+			default:
+			}
+			return
+		}
 		mu.Lock()
 		first := len(log) == 0
 		log = append(log, delivery{it.ID, ctx.RequestHeaders(), ctx.CorrelationID(), it, time.Now()})
@@ -234,6 +247,13 @@ func runCase(b broker, workers int, c Case) {
 	// "foreign" for the first subscriber is this one's traffic, and nothing of the first may ever reach it
 	var log2 []int64
 	s2, err := sub.SubscribeItemAdded(user+"x", func(ctx frugal.FContext, it *verifbase.Item) {
+		if it.ID < 0 {
+			select {
+			case probe2 <- struct{}{}:
+			default:
+			}
+			return
+		}
 		mu.Lock()
 		log2 = append(log2, it.ID)
 		mu.Unlock()
@@ -242,11 +262,28 @@ func runCase(b broker, workers int, c Case) {
 		fmt.Fprintln(os.Stderr, "subscribe 2:", err)
 		os.Exit(2)
 	}
-	if b.name() == "stomp" {
-		time.Sleep(3 * time.Millisecond) // SUBSCRIBE frame is asynchronous in go-stomp
-	}
 	pub := verifrpc.NewEventsPublisher(prov)
 	pub.Open()
+	if b.name() == "stomp" {
+		// SUBSCRIBE is asynchronous in go-stomp: publish probes (negative ids, not part of the run) until both subscriptions
+		// deliver - "published while subscribed" must not depend on how loaded the machine is
+		for which, ch := range []chan struct{}{probe1, probe2} {
+			live := false
+			for dl := time.Now().Add(10 * time.Second); !live && time.Now().Before(dl); {
+				pub.PublishItemAdded(frugal.NewFContext("probe"), user+[]string{"", "x"}[which], &verifbase.Item{ID: -1})
+				select {
+				case <-ch:
+					live = true
+				case <-time.After(20 * time.Millisecond):
+				}
+			}
+			if !live {
+				fmt.Fprintln(os.Stderr, "stomp subscription did not become live within 10 s")
+				os.Exit(2)
+			}
+		}
+		time.Sleep(25 * time.Millisecond) // let late duplicates of the probes drain (they are ignored anyway)
+	}
 	replay := map[string]interface{}{"transport": b.name(), "workers": workers, "case": c}
 	fail := func(key, text string) {
 		res.Violations = append(res.Violations, Violation{b.name() + "/" + key, fmt.Sprintf("%s, %d worker(s), kinds %v, unsubscribe before #%d: %s", b.name(), workers, kindsText(c), c.Unsub, text), replay})
@@ -306,7 +343,7 @@ func runCase(b broker, workers int, c Case) {
 	quiesce := func() bool {
 		id := publish("ok", 0)
 		sentinels[id] = true
-		return waitFor(id, 2*time.Second)
+		return waitFor(id, 6*time.Second)
 	}
 	alive := true
 	for i, k := range c.Kinds {
